@@ -27,7 +27,28 @@ def replay(ctx, rec):
                 print("run %d of scenario %s on the current tree is rejected: %s" % (i, seed, (rej or "")[:300]))
         print("scenario %s re-run 20 times on the current tree: %d rejected / crashed / blocked" % (seed, bad))
         return 1 if bad else 0
-    if det.get("trace_spec") == "MessageTrace":
+    if det.get("trace_spec") == "E2ETrace":
+        from . import p_e2e
+        seed = det.get("scenario_seed")
+        print("recorded: %s" % rec.get("what", "")[:600])
+        if os.path.exists(det.get("trace", "")):
+            ok, rej = p_e2e.validate(ctx, det["trace"], "recorded")
+            print("recorded trace against the current specification: %s" % ("accepted" if ok else "rejected: " + (rej or "")[:400]))
+        if seed is None:
+            return 2
+        bad = 0
+        for i in range(10):
+            trace, inc, crashed = p_e2e.run_e2e(ctx, 1, seed, 80, "replay%d" % i)
+            if crashed:
+                bad += 1
+                continue
+            ok, rej = p_e2e.validate(ctx, trace, "replay%d" % i)
+            if not ok:
+                bad += 1
+                print("run %d with seed %s on the current tree is rejected: %s" % (i, seed, (rej or "")[:300]))
+        print("seed %s re-run 10 times on the current tree (cut timing is not reproducible exactly): %d rejected / crashed" % (seed, bad))
+        return 1 if bad else 0
+    if det.get("trace_spec") in ("MessageTrace", "TokenizerTrace"):
         print("recorded: %s" % rec.get("what", "")[:1500])
         return 2
     return 2
